@@ -319,7 +319,6 @@ fn c08<M: Machine>(_w: &World<M>, slot: u16, s: &Slot<M>, o: &Obs, cfg: CheckCfg
                     let rec = var * (n - 1.0) + mean * sum;
                     let r = (rec - sm.q_f).abs() / (u * sm.q_f);
                     let floor = 16.0 * eta::<M>() * n / (u * sm.q_f);
-                    stats.worst("c08_sumsq_over_uQ", r);
                     // on top of the K*u*Q of the register itself the reconstruction costs the
                     // roundings of mean*sum (library and ours), of the subtraction, the division
                     // and of mean*n standing in for sum: <= 10u*Q by Cauchy-Schwarz
@@ -329,6 +328,7 @@ fn c08<M: Machine>(_w: &World<M>, slot: u16, s: &Slot<M>, o: &Obs, cfg: CheckCfg
                     if !(floor.is_finite() && floor < 4.0) {
                         stats.inc("c08_sumsq_skipped_squares_underflow");
                     } else if r.is_nan() || r > lim {
+                        stats.worst("c08_sumsq_over_uQ", r);
                         return Some(Violation::new(
                             "C08",
                             "stat-sumsq-error-bound",
@@ -338,6 +338,9 @@ fn c08<M: Machine>(_w: &World<M>, slot: u16, s: &Slot<M>, o: &Obs, cfg: CheckCfg
                                 r, lim, sm.n, s.model.merges, s.model.right_acc
                             ),
                         ));
+                    } else {
+                        // reported relative to the part of the limit that is not the absolute floor
+                        stats.worst("c08_sumsq_over_uQ", (r - floor).max(0.0));
                     }
                 }
             }
